@@ -749,6 +749,8 @@ def form_reference(
                     p = pts if point_perm is None else point_perm[r](pts)
                     Xs.append(map_to_sub_entity(cellname, edim, entity[r], p))
                 ctx.X = Xs
+            if len(wts) * max(int(np.prod(shape)) if shape else 1, 1) > 3_000_000:
+                raise Unsupported("case too large for the reference evaluator (points x entries > 3e6)")
             val = evaluate(itg.integrand(), ctx, tol)
             P = len(wts)
             nacc += P
